@@ -848,10 +848,12 @@ func init() {
 		ID: "C10",
 		Run: func(c *Ctx) {
 			c.ImportRules("C10")
+			c.DecodeFreshTarget("C11")
 			if s := c.Slashing("C10.anchors"); s.OK() {
 				c.EncodeDecodeAgreement("C10", s, s.AttState, map[string]bool{"SourceEpoch": true, "TargetEpoch": true})
 				c.EncodeDecodeAgreement("C10", s, s.PropState, map[string]bool{"Slot": true})
 				c.WhoWrites("C10")
+				c.BadgerBufferDiscipline("C11") // the import compares against records read through FetchAll
 			}
 		},
 		Explanation: "The import command opens and writes the store only below [version == \"5\"], [configured root set] and [configured root == file root]; every entry of the file reaches the outgoing map or fails the import; the record written for a key is raised, field by field, to at least the existing database record and any earlier entry for the key (all stores to the record are monotone); numbers are used only below [err == nil] and [value >= 0]; the rules-level import stores every value other than -1 under the action the rules read it under, with the same encoder, and returns store errors. See DESIGN.md §5 C10.",
